@@ -631,6 +631,24 @@ def describe_assignment_target(
             return "({},)".format(values[0])
         return "({})".format(", ".join(values))
 
+    def format_constant(value: object) -> str:
+        # What we produce is meant to read like the source. The repr of
+        # some constants doesn't: it is a name that may be bound to
+        # something else (Ellipsis, inf, nan), also inside a tuple.
+        if value is Ellipsis:
+            return "..."
+        if type(value) is tuple:
+            return format_tuple([format_constant(elem) for elem in value])
+        if type(value) is float and value in (float("inf"), float("-inf")):
+            return "1e999" if value > 0 else "-1e999"
+        if type(value) is complex and value.real == 0 and type(value.imag) is float:
+            if value.imag in (float("inf"), float("-inf")):
+                return format_constant(value.imag) + "j"
+        if type(value) in (float, complex) and "n" in repr(value):
+            # (inf or nan somewhere in it, in no form that a literal has)
+            raise ValueError(f"constant {value!r} has no literal form")
+        return repr(value)
+
     idx = start_idx
 
     def next_target() -> str:
@@ -659,8 +677,18 @@ def describe_assignment_target(
                 obj = stack.pop()
                 stack.append(f"{obj}.{insn.argval}")
             elif insn.opname == "LOAD_CONST":
-                # (the repr of Ellipsis is a name that can be rebound)
-                stack.append("..." if insn.argval is Ellipsis else insn.argrepr)
+                stack.append(format_constant(insn.argval))
+            elif insn.opname == "LOAD_SUPER_ATTR":
+                # 3.12+: super().attr and super(cls, obj).attr. Loaded so
+                # far: the name 'super', the class, the instance; the
+                # second-lowest bit of the argument tells the two forms
+                # apart.
+                instance = stack.pop()
+                cls = stack.pop()
+                func = stack.pop()
+                assert insn.arg is not None
+                args = f"{cls}, {instance}" if insn.arg & 2 else ""
+                stack.append(f"{func}({args}).{insn.argval}")
             elif insn.opname in ("BINARY_SUBSCR", "STORE_SUBSCR"):
                 index = stack.pop()
                 container = stack.pop()
